@@ -144,6 +144,7 @@ type BuildCase struct {
 	Extra           map[string]any    `json:"extra,omitempty"`       // extra top-level YAML (format blocks etc.), merged in
 	X               *Extras           `json:"x,omitempty"`           // typed format-specific blocks
 	Constraints     bool              `json:"constraints,omitempty"` // decorate every second relation item with a version constraint in the target format's syntax
+	Signed          bool              `json:"signed,omitempty"`      // sign deb, rpm and apk with the harness' unprotected test keys
 	Formats         []string          `json:"formats,omitempty"`
 	RelSrc          bool              `json:"rel_src,omitempty"` // reference sources by relative path (needs cwd = root)
 }
@@ -429,6 +430,16 @@ func (c *BuildCase) ConfigMapFor(root, f string) map[string]any {
 		}
 		ps("archlinux", "pkgbase", x.ArchPkgbase)
 		ps("archlinux", "packager", x.ArchPackager)
+	}
+	if c.Signed {
+		kd := os.Getenv("VERIF_KEYS")
+		if kd == "" {
+			kd = filepath.Join(verifDir(), "harness", "testdata", "keys")
+		}
+		sub(sub(m, "deb"), "signature")["key_file"] = filepath.Join(kd, "pgp-primary.sec.asc")
+		sub(sub(m, "rpm"), "signature")["key_file"] = filepath.Join(kd, "pgp-subkey.sec.gpg")
+		sub(sub(m, "apk"), "signature")["key_file"] = filepath.Join(kd, "rsa-a.pkcs1.pem")
+		sub(sub(m, "apk"), "signature")["key_name"] = "verif-test"
 	}
 	if c.DebCompression != "" {
 		sub(m, "deb")["compression"] = c.DebCompression
